@@ -278,6 +278,38 @@ def work_generated(chunk):
     return n, res
 
 
+# (pattern, replacement, source, expected result as text - compared as trees)
+FIXED_CASES = [
+    ("({{t}} for {{t}} in {{it}})", "iter({{it}})", "y = sum(x for x in r)\n", "y = sum(iter(r))\n"),
+    ("({{t}} for {{t}} in {{it}})", "iter({{it}})", "y = max(x for x in range(0, 10, 2))\n", "y = max(iter(range(0, 10, 2)))\n"),
+    ("({{t}} for {{t}} in {{it}})", "iter({{it}})", "y = (x for x in r)\n", "y = iter(r)\n"),
+    ("({{t}} for {{t}} in {{it}})", "iter({{it}})", "y = f(1, (x for x in r))\n", "y = f(1, iter(r))\n"),
+    ("({{t}} for {{t}} in {{it}})", "{{it}}", "y = sorted(x for x in a + b)\n", "y = sorted(a + b)\n"),
+    ("({{t}} for {{t}} in {{it}})", "{{it}}", "def f(r):\n    return any(x for x in r) or all(x for x in r)\n", "def f(r):\n    return any(r) or all(r)\n"),
+    ("[{{t}} for {{t}} in {{it}}]", "list({{it}})", "y = [x for x in r] + [z for z in q]\n", "y = list(r) + list(q)\n"),
+    ("{{a}} == None", "{{a}} is None", "y = not x == None\n", "y = not x is None\n"),
+    ("not {{a}} in {{b}}", "{{a}} not in {{b}}", "y = z and not p in q\n", "y = z and p not in q\n"),
+    ("{{a}}.get({{k}}, None)", "{{a}}.get({{k}})", "y = d.get(k, None).x[0]\n", "y = d.get(k).x[0]\n"),
+    ("len({{a}}) == 0", "not {{a}}", "y = len(v) == 0 and w\n", "y = not v and w\n"),
+    ("len({{a}}) == 0", "not {{a}}", "y = -(len(v) == 0)\n", "y = -(not v)\n"),
+]
+
+
+def work_fixed(case):
+    from pyrefact import pattern_matching as pm
+    P.quiet()
+    pat, rep, src, want = case
+    try:
+        out = pm.sub(pat, rep, src)
+    except Exception as ex:  # noqa: BLE001
+        return [{"cls": f"raises:{type(ex).__name__}", "what": f"sub raised {type(ex).__name__}: {ex}"}]
+    try:
+        same = dump(ast.parse(out)) == dump(ast.parse(want))
+    except SyntaxError:
+        same = False
+    return [] if same else [{"cls": "fixed-case-tree-differs", "what": f"sub({pat!r}, {rep!r}, {src!r}) -> {out!r}, expected the tree of {want!r}"}]
+
+
 NOPATS = [("zzz_not_there({{a}})", "qqq({{a}})"), ("{{a}} @ zzz_not_there", "{{a}}"), ("del zzz_not_there", "pass")]
 
 
@@ -341,7 +373,15 @@ def run(tier, seed):
     corpus = P.corpus()
     sin = rnd.sample(corpus, 120 if tier == "quick" else len(corpus))
     r2 = P.pool_map(work_corpus, sin, chunksize=4)
+    r0 = P.pool_map(work_fixed, FIXED_CASES, chunksize=2)
     out = []
+    fl = []
+    for c, fs in zip(FIXED_CASES, r0):
+        for f in fs:
+            fl.append({"id": f"{f['cls']}::{c[0]}::{c[2][:40]}", "cls": f["cls"], "input": f"sub({c[0]!r}, {c[1]!r}, {c[2]!r})", "observed": f["what"], "required": f"tree of {c[3]!r}"})
+    out.append({"name": "c14-fixed-cases", "function": "pattern_matching.sub", "contract": "result tree equals the expected tree (generator as sole call argument, operator contexts, attribute / subscript chains)",
+                "space": f"{len(FIXED_CASES)} hand-written (pattern, replacement, source, expected) cases", "bound": "enumerated cases", "evaluations": len(FIXED_CASES), "distinct_nontrivial": len(FIXED_CASES),
+                "exhaustive": True, "failures": P.cap(fl), "samples": [repr(FIXED_CASES[0])]})
     fl, n = [], 0
     for cnt, fs in r1:
         n += cnt
